@@ -261,7 +261,7 @@ def observe_cli_switch(keep, key, f1, f2):
         main.diff_files = real
     if len(seen) != 1 or len(captured) != 1:
         return None
-    return int(captured[0].normalize), bool(seen[0].get('remove_blank_text'))
+    return int(getattr(captured[0], "normalize", -1)), bool(seen[0].get("remove_blank_text"))
 
 
 # ----------------------------------------------------------------------------
@@ -388,18 +388,18 @@ def oracle_xml_variants(l, r, n, name, cfg):
     return None
 
 
-def oracle_cli_check(l, r, key, keep, tmp):
+def oracle_cli_check(l, r, key, keep, tmp, extra=()):
     """--check on a document and its re-indentation: status 1 exactly with -w (and a real white space difference)"""
     from harness import gen
     a, b = os.path.join(tmp, 'l.xml'), os.path.join(tmp, 'r.xml')
     open(a, 'w', encoding='utf8').write(l)
     open(b, 'w', encoding='utf8').write(r)
-    out, st = run_cli(['--check'] + (['--keep-whitespace'] if keep else []) + ['--formatter', key, a, b])
+    out, st = run_cli(['--check'] + list(extra) + (['--keep-whitespace'] if keep else []) + ['--formatter', key, a, b])
     differs = gen.canon(parse_plain(l)) != gen.canon(parse_plain(r))
     want = 1 if (keep and differs) else None
     if st != want:
-        return "--check%s --formatter %s on a re-indented document returned %r, expected %r (white space %s)" % (
-            " --keep-whitespace" if keep else "", key, st, want, "kept: the documents differ" if want else "ignored")
+        return "--check%s%s --formatter %s on a re-indented document returned %r, expected %r (white space %s)" % (
+            "".join(" " + x for x in extra), " --keep-whitespace" if keep else "", key, st, want, "kept: the documents differ" if want else "ignored")
     if key == 'xml' and (want is None) != markup_free(out):
         return "--check --formatter xml: status %r but the printed document %s diff markup" % (st, "has no" if want else "has")
     return None
@@ -550,11 +550,14 @@ def main(run):
             if i % (4 if quick else 2) == 0:
                 for key in ('diff', 'xml', 'old'):
                     for keep in (False, True):
-                        w = oracle_cli_check(l, r, key, keep, tmp)
+                        # the white space switch does not depend on the other options: every third time with
+                        # --pretty-print / -F / --fast-match as well
+                        extra = [(), ("--pretty-print",), ("-F", "0.6", "--fast-match")][(ncli // 6) % 3]
+                        w = oracle_cli_check(l, r, key, keep, tmp, extra)
                         ncli += 1
                         if w:
                             viols.append({"what": "diff_command: " + w, "replay": {"kind": "cli-check", "left": l, "right": r, "key": key,
-                                                                                  "keep": keep}})
+                                                                                  "keep": keep, "extra": list(extra)}})
             w = oracle_actions(l, r)
             nact += 1
             if w:
@@ -638,7 +641,7 @@ def replay(run, path):
     if k == "cli-check":
         tmp = tempfile.mkdtemp(prefix="c14-")
         try:
-            w = oracle_cli_check(d["left"], d["right"], d["key"], d["keep"], tmp)
+            w = oracle_cli_check(d["left"], d["right"], d["key"], d["keep"], tmp, tuple(d.get("extra", ())))
         finally:
             shutil.rmtree(tmp, ignore_errors=True)
         print(w or "property holds on this input")
